@@ -67,6 +67,76 @@ CHECKS = {
         note="The manifest hash value (hash.rs) is exercised by the history checks; its collision behaviour is an assumption (H-hash).",
         technique="Coq proof (codec round trip, attribution, renumbering invariance) + differential correspondence",
     ),
+    "C01": dict(
+        category="proof",
+        text='Coq theorems over a verified trace acceptor for Work::run (Model/Sched.v): in every state reachable by accepted events, at each command start every transitive ordering producer is Done, Done/Failed are final, a step starts at most once per Work, and a concrete accepted trace witnesses that validation edges impose no order + every invocation trace of the instrumented real scheduler (random graphs, pools, -j/-k, scripted completion orders/outcomes, histories with edits) is replayed through the extracted acceptor and through python monitors on the raw trace.',
+        design_ref='DESIGN.md §6 C01',
+        note='Trusted: Coq kernel, extraction, the hand model of work.rs (Model/Sched.v) and the sampling of trace acceptance. The real task::Runner (threads, channel, processes) is replaced by the scripted executor; it is exercised by the black-box leg of C16.',
+        technique='Coq invariant proof over a trace acceptor + trace acceptance of the instrumented implementation',
+    ),
+    "C04": dict(
+        category="proof",
+        text='Coq theorems: in every reachable state the runner count equals the number of Running steps and is <= -j; for every pool of depth d>0 the number of Running steps of that pool is <= d; console has depth 1 unless redeclared; an unknown pool yields the error return and no start + trace acceptance as for C01 with pool-heavy generation and monitors on the raw trace.',
+        design_ref='DESIGN.md §6 C04',
+        note='Trusted: Coq kernel, extraction, the hand model of work.rs (Model/Sched.v) and the sampling of trace acceptance. The real task::Runner (threads, channel, processes) is replaced by the scripted executor; it is exercised by the black-box leg of C16.',
+        technique='Coq invariant proof over a trace acceptor + trace acceptance',
+    ),
+    "C05": dict(
+        category="proof",
+        text='Coq theorems: Failed is final and nothing downstream of a failed step is ever started; a record is written only right after a successful finish (or in adopt mode); after an interruption or the k-th failure the only accepted event is the failing return; success is returned only if every wanted step is Done; the keep-going exit leaves every wanted step Done, Failed or waiting transitively on a Failed one + trace acceptance with failure/interrupt scripts and monitors.',
+        design_ref='DESIGN.md §6 C05',
+        note="Trusted: Coq kernel, extraction, the hand model of work.rs (Model/Sched.v) and the sampling of trace acceptance. The real task::Runner (threads, channel, processes) is replaced by the scripted executor; it is exercised by the black-box leg of C16. Exit status 1 / 'n2: error:' are added by main.rs (black-box leg).",
+        technique='Coq invariant proof over a trace acceptor + trace acceptance',
+    ),
+    "C06": dict(
+        category="proof",
+        text="Coq theorems: the want traversal never exhausts its depth fuel, a reported cycle is an actual cycle of ordering edges, an Ok traversal leaves an acyclic wanted set (also through validation re-entrancy), acyclicity is invariant, and in any reachable idle state with work pending, nothing running and nothing failed some progress event is enabled (so the 'BUG: no work to do' panic and a silent wait are impossible); success implies all wanted steps Done; a step never waits for its validation targets (witness) + trace acceptance over acyclic, cyclic and validation-cyclic graphs incl. regeneration-phase reuse.",
+        design_ref='DESIGN.md §6 C06',
+        note='Trusted: Coq kernel, extraction, the hand model of work.rs (Model/Sched.v) and the sampling of trace acceptance. The real task::Runner (threads, channel, processes) is replaced by the scripted executor; it is exercised by the black-box leg of C16. Machine-stack exhaustion of the recursive traversal on very deep graphs (F19) is outside the model.',
+        technique='Coq proof (termination, acyclicity, progress) + trace acceptance',
+    ),
+    "C18": dict(
+        category="proof",
+        text='Coq theorems: after the want phase the set of steps with a state is exactly the closure of the requested targets over all four input kinds (for named targets, defaults, everything-but-the-manifest), the run loop never starts or touches a step outside it, and a successful selection means every name resolved to a file of the graph + differential check of target selection and traversal against the real run::build on random graphs and target lists (several spellings, unknown names, cycles before unknown names).',
+        design_ref='DESIGN.md §6 C18',
+        note='Trusted: Coq kernel, extraction, the hand model of work.rs (Model/Sched.v) and the sampling of trace acceptance. The real task::Runner (threads, channel, processes) is replaced by the scripted executor; it is exercised by the black-box leg of C16. Names known only from the build log (F14) and -f/-C/builddir handling are exercised by the black-box leg only.',
+        technique='Coq proof (closure characterisation) + differential correspondence and trace acceptance',
+    ),
+    "C19": dict(
+        category="proof",
+        text="Coq theorems: every accepted progress update equals the census of non-phony step states, the total equals the number of wanted non-phony steps, the running count equals the runner's count, finished counts never decrease, tasks_run equals the number of successful finishes + every update vector the real scheduler reports is checked by the acceptor and by a python census of the raw trace; the final summary count is compared with the successful commands.",
+        design_ref='DESIGN.md §6 C19',
+        note='Trusted: Coq kernel, extraction, the hand model of work.rs (Model/Sched.v) and the sampling of trace acceptance. The real task::Runner (threads, channel, processes) is replaced by the scripted executor; it is exercised by the black-box leg of C16.',
+        technique='Coq invariant proof over a trace acceptor + trace acceptance',
+    ),
+    "C10": dict(
+        category="proof",
+        text="Coq theorems: a spelling relation (spacing, $-newline continuations, $x / ${x}, escapes, comments, indentation, all section markers incl. empty sections) from abstract statements to text, and parser_read returns exactly the declared statement (up to merging of literal pieces) for every spelling, for whole files, independent of the spelling, with totality + differential check of the real loader against the model and against an independent python statement of Ninja's rules on random abstract manifests x 3 spellings. Known: F11 (include scope), F18.",
+        design_ref='DESIGN.md §6 C10',
+        note='Trusted: Coq kernel, extraction, the hand transcription of parse.rs/eval.rs/load.rs/graph.rs (Model/Parse.v, Model/Load.v) and the sampling of the differential check. The statement->graph half (roles, attributes) is covered by the C11/C14 theorems and the differential check.',
+        technique='Coq proof (grammar round trip) + differential correspondence',
+    ),
+    "C11": dict(
+        category="proof",
+        text='Coq theorems over evaluate / bind_step / attr_lookup: first environment wins and nested references continue after it, undefined is empty, file-level bindings are top-down, a build-block attribute is expanded in file scope only (siblings invisible), otherwise rule binding with $in/$out then build block then file scope, path scope, subninja copy (witness), include treated like subninja (refutation witness, known finding F11) + differential check of every evaluated attribute and path on random manifests with bindings at all three levels and includes.',
+        design_ref='DESIGN.md §6 C11',
+        note='Trusted: Coq kernel, extraction, the hand transcription of parse.rs/eval.rs/load.rs/graph.rs (Model/Parse.v, Model/Load.v) and the sampling of the differential check.',
+        technique='Coq proof (scoping laws) + differential correspondence',
+    ),
+    "C12": dict(
+        category="proof",
+        text="Coq theorems: for every byte string the parser returns a statement, end of file or an error with an offset inside the buffer — never a panic, out-of-bounds read or fuel exhaustion; the loader's only panics are the known sites (empty manifest name, > 60 path components F4, include depth F20); the diagnostic has file, line and a caret line; command-line targets and depfiles are total + exhaustive token sequences (<= 4/5 tokens over 24), every prefix and byte-level mutants of valid manifests, raw bytes, long multi-byte lines through the real loader vs the model. Pinned tree: F1, F2, F3 repaired (witness C12_pinned_vardef_refuted).",
+        design_ref='DESIGN.md §6 C12',
+        note="Trusted: Coq kernel, extraction, the hand transcription of parse.rs/eval.rs/load.rs/graph.rs (Model/Parse.v, Model/Load.v) and the sampling of the differential check. Exit status and the 'n2: error:' prefix come from main.rs (black-box leg).",
+        technique='Coq proof (totality/safety of the front end) + exhaustive small-scope differential correspondence',
+    ),
+    "C14": dict(
+        category="proof",
+        text='Coq theorems: after a successful load every file has at most one producer and producer <-> output lists agree (loader invariant through parse_file/load_manifest), a second producer is rejected with a message citing both locations (also across included files, witnesses), an output repeated inside a statement is kept once with the explicit count = number of distinct explicit outputs (remove_duplicates specification; pinned code refuted, F12 repaired) + differential check on manifests with random duplicate outputs and exhaustive id lists for remove_duplicates.',
+        design_ref='DESIGN.md §6 C14',
+        note='Trusted: Coq kernel, extraction, the hand transcription of parse.rs/eval.rs/load.rs/graph.rs (Model/Parse.v, Model/Load.v) and the sampling of the differential check.',
+        technique='Coq proof (loader invariant, dedup specification) + differential correspondence',
+    ),
 }
 
 PENDING_REASON = "check not built yet in this round (work in progress, see DESIGN.md §10); not claimed"
